@@ -31,23 +31,44 @@ def make_plan(seed: int, tier: str, opts: dict) -> dict:
             st["max_records"] = r.choice([20000, 20000, 5, 3, 1])
         ep["record_settings"] = st
         settings.append(st)
-    do_compiled = r.random() < opts.get("compiled_p", 0.4)
+    wall = r.random() < opts.get("wall_p", 0.15)
+    if wall:
+        # WALL_CLOCK recording path (timestamps from the virtual clock): short episodes; nodes with a strictly positive computation time
+        # move step_state.ts forward inside their step, which the runtime documents as allowed and must record consistently
+        from simrex.spec import dist_min
+
+        for nd in spec["nodes"]:
+            if dist_min(nd["dist"]) > 1e-3 and nd["dist"][0] in ("det", "mix") and r.random() < 0.7:
+                nd["ts_shift"] = round(0.25 * dist_min(nd["dist"]), 6)
+        eps = eps[:3]
+        for ep in eps:
+            ep["nsteps"] = r.randint(3, 6)
+            ep["rtf"] = 1
+    do_compiled = (not wall) and r.random() < opts.get("compiled_p", 0.4)
     cc = None
     if do_compiled:
         cc = dict(mode=r.choice(compiled.MODES), prune=r.random() < 0.5, api=r.choice(["rollout_carry", "run_jit", "gym_jit"]),
                   record={f: r.random() < 0.6 for f in FIELDS})
     for ep in eps:
         ep["until_active"] = True
-    return dict(spec=spec, seed=seed, episodes=eps, clock="sim", line_rate=0.0, compile=cc)
+    return dict(spec=spec, seed=seed, episodes=eps, clock="wall" if wall else "sim", line_rate=0.0, compile=cc)
 
 
-def _row_vs_event(rec_steps, k, ev, input_names, settings):
+def _row_vs_event(rec_steps, k, ev, input_names, settings, shift: float = 0.0):
     """Compare recorded row k with the probe's event of tick k. Returns None or (field, recorded, actual)."""
     if int(onp.asarray(rec_steps.seq)[k]) != ev["seq"]:
         return "seq", int(onp.asarray(rec_steps.seq)[k]), ev["seq"]
     ts = probes._fbits(onp.asarray(rec_steps.ts_start)[k])[0]
-    if ts != ev["ts"]:
-        return "ts_start", ts, ev["ts"]
+    if not shift:
+        if ts != ev["ts"]:
+            return "ts_start", ts, ev["ts"]
+    else:
+        seen = float(onp.asarray([ev["ts"]], dtype=onp.uint32).view(onp.float32)[0])
+        if abs(float(onp.asarray(rec_steps.ts_start)[k]) - (seen + shift)) > 2e-6:
+            return "ts_start (after the step moved it)", float(onp.asarray(rec_steps.ts_start)[k]), seen + shift
+    b_, e_, d_ = (float(onp.asarray(getattr(rec_steps, f))[k]) for f in ("ts_start", "ts_end", "delay"))
+    if abs((e_ - b_) - d_) > 1e-9:
+        return "delay (ts_end - ts_start)", d_, e_ - b_
     if rec_steps.rng is not None:
         rr = onp.asarray(rec_steps.rng)[k].reshape(-1).tolist()
         if rr != ev["rng"]:
@@ -97,6 +118,7 @@ def run_plan(plan: dict, replay=None) -> dict:
         res.update(status="precondition_failed", detail=f"episode did not complete ({ro.status}: {ro.detail[:300]})", decisions=ro.decisions, widths=ro.widths)
         return res
     nodes = ro.nodes
+    wall = plan.get("clock") == "wall"
     viol = []
     rows_checked = variants = truncated = unavailable = 0
     ref = ro.episodes[0]
@@ -104,8 +126,8 @@ def run_plan(plan: dict, replay=None) -> dict:
     for j, eo in enumerate(ro.episodes):
         st = eo.plan["record_settings"]
         ev_idx, dup = index_events(eo.trace)
-        # (a) the execution itself is unchanged by the record settings
-        if j > 0:
+        # (a) the execution itself is unchanged by the record settings (simulated clock only: wall-clock timestamps depend on the schedule)
+        if j > 0 and not wall:
             variants += 1
             for key, ev in ev_idx.items():
                 r_ev = ref_ev.get(key)
@@ -143,7 +165,7 @@ def run_plan(plan: dict, replay=None) -> dict:
                 if ev is None:
                     continue  # the supervisor's cancelled last tick
                 rows_checked += 1
-                d = _row_vs_event(steps, k, ev, input_names, st)
+                d = _row_vs_event(steps, k, ev, input_names, st, shift=float(getattr(nodes[n], "ts_shift", 0.0)) if wall else 0.0)
                 if d is not None:
                     viol.append(dict(clause="c13-recorded-row-differs-from-what-the-step-used", signature="c13-row:" + d[0].split("[")[0], variant=j, node=n, tick=k, field=d[0], recorded=str(d[1])[:200],
                                      actual=str(d[2])[:200], settings=st))
@@ -195,7 +217,8 @@ def run_plan(plan: dict, replay=None) -> dict:
                                      compile=cc))
                     break
         jax.clear_caches()
-    res.update(common.summarise(ro, plan, extra_sums=dict(rows_checked_threaded=rows_checked, rows_checked_compiled=c_rows, setting_variants=variants, truncated_records=truncated, record_unavailable=unavailable)))
+    res.update(common.summarise(ro, plan, extra_sums=dict(rows_checked_threaded=rows_checked, rows_checked_compiled=c_rows, setting_variants=variants, truncated_records=truncated, record_unavailable=unavailable, wall_clock_runs=1 if wall else 0,
+                                                       ts_shifting_nodes=sum(1 for nd in spec["nodes"] if nd.get("ts_shift")))))
     res["dicts"]["fault_counts"]["truncate_record"] = truncated
     if viol:
         res.update(status="violation", violations=viol, decisions=ro.decisions, widths=ro.widths)
